@@ -2145,32 +2145,229 @@ def _sep_anchored(e: ast.AST | None, fn: ast.AST) -> bool:
     return False
 
 
+def _with_record_methods(ix: Any, reg: list[Any]) -> list[Any]:
+    """the functions of a region plus the methods of the private classes of their module that they make instances of (a record that
+    carries part of the function's state together with the code that works on it is part of the function, like a private helper)"""
+    out = list(reg)
+    seen = {f.qual for f in out}
+    frontier = list(reg)
+    for _ in range(2):
+        nxt = []
+        for g in frontier:
+            for c in calls_in(g.node):
+                name = call_name(c)
+                r = ix.resolve(g.module, name) if name.startswith("_") and "." not in name else None
+                if r and r[0] == "class" and r[1].module is g.module:
+                    for m in r[1].methods.values():
+                        if m.qual not in seen:
+                            seen.add(m.qual)
+                            out.append(m)
+                            nxt.append(m)
+        frontier = nxt
+    return out
+
+
+def _held(e: ast.expr, fn: ast.AST, keep: set[str], depth: int = 3) -> ast.expr:
+    """e with the locals of fn that are bound once, by an assignment, replaced by what they are bound to (`keep`: names that stay)"""
+    lc = Locals(fn)
+    own = {n: [d for d in ds if not isinstance(d[1], ast.comprehension)] for n, ds in lc.defs.items()}  # a comprehension's variable is its own
+    store: dict[str, ast.expr | None] = {n: ds[0][2] for n, ds in own.items() if n not in keep and len(ds) == 1 and ds[0][0] == "assign"
+                                          and isinstance(ds[0][2], ast.expr)}
+    for _ in range(depth):
+        if not (names_in(e) & set(store)):
+            break
+        e = _Subst(store).visit(copy.deepcopy(e))
+    return e
+
+
+_UNK = object()
+_PARENT_LISTS = ("required_properties", "optional_properties")
+
+
+def _concrete(e: ast.AST, attrs: dict[str, Any]) -> Any:
+    """the value of an expression over `<x>.required_properties` / `<x>.optional_properties` when these hold the given values (None, an
+    empty list, a list with something in it); _UNK when it depends on anything else.  Elements of collections are opaque."""
+    def truth(x: ast.AST) -> bool | None:
+        return _truth3(x, attrs)
+
+    if isinstance(e, ast.Attribute) and e.attr in attrs:
+        return attrs[e.attr]
+    if isinstance(e, ast.Constant):
+        return e.value
+    if isinstance(e, ast.NamedExpr):
+        return _concrete(e.value, attrs)
+    if isinstance(e, (ast.List, ast.Tuple, ast.Set)):
+        out: list[Any] = []
+        for x in e.elts:
+            if isinstance(x, ast.Starred):
+                v = _concrete(x.value, attrs)
+                if v is _UNK or v is None or not isinstance(v, (list, tuple)):
+                    return _UNK
+                out += list(v)
+            else:
+                out.append(object())
+        return tuple(out) if isinstance(e, ast.Tuple) else out
+    if isinstance(e, ast.BoolOp):
+        is_and = isinstance(e.op, ast.And)
+        for x in e.values[:-1]:
+            t = truth(x)
+            if t is None:
+                return _UNK
+            if t != is_and:
+                return _concrete(x, attrs)
+        return _concrete(e.values[-1], attrs)
+    if isinstance(e, ast.UnaryOp) and isinstance(e.op, ast.Not):
+        t = truth(e.operand)
+        return _UNK if t is None else not t
+    if isinstance(e, ast.IfExp):
+        t = truth(e.test)
+        return _UNK if t is None else _concrete(e.body if t else e.orelse, attrs)
+    if isinstance(e, ast.BinOp) and isinstance(e.op, ast.Add):
+        a, b = _concrete(e.left, attrs), _concrete(e.right, attrs)
+        if isinstance(a, (list, tuple)) and isinstance(b, (list, tuple)):
+            return list(a) + list(b)
+        return _UNK
+    if isinstance(e, ast.Compare) and len(e.ops) == 1:
+        a, b = _concrete(e.left, attrs), _concrete(e.comparators[0], attrs)
+        if a is _UNK or b is _UNK:
+            return _UNK
+        op = e.ops[0]
+        try:
+            if isinstance(op, (ast.Is, ast.IsNot)):
+                if a is None or b is None:
+                    return (a is b) == isinstance(op, ast.Is)
+                return _UNK
+            if isinstance(op, (ast.Eq, ast.NotEq)):
+                if any(isinstance(x, (list, tuple)) and x for x in (a, b)) and type(a) is type(b):
+                    return _UNK  # opaque elements
+                return (a == b) == isinstance(op, ast.Eq)
+            if isinstance(op, (ast.Lt, ast.LtE, ast.Gt, ast.GtE)) and all(isinstance(x, (int, float)) for x in (a, b)):
+                return {ast.Lt: a < b, ast.LtE: a <= b, ast.Gt: a > b, ast.GtE: a >= b}[type(op)]
+        except Exception:
+            return _UNK
+        return _UNK
+    if isinstance(e, ast.Call) and not e.keywords:
+        fn = call_name(e).rsplit(".", 1)[-1]
+        args = [_concrete(a, attrs) for a in e.args if not isinstance(a, ast.Starred)]
+        if len(args) != len(e.args):
+            return _UNK
+        if fn == "isinstance" and len(args) == 2 and args[0] is not _UNK:
+            classes = {norm(t).rsplit(".", 1)[-1] for t in (e.args[1].elts if isinstance(e.args[1], ast.Tuple) else [e.args[1]])}
+            known = {"list": list, "tuple": tuple, "type(None)": type(None), "NoneType": type(None)}
+            if any(c in known and isinstance(args[0], known[c]) for c in classes):
+                return True
+            if args[0] is None or classes <= set(known):
+                return False  # None is an instance of nothing else a test would name
+            return _UNK
+        if any(a is _UNK for a in args):
+            return _UNK
+        try:
+            if fn == "len" and len(args) == 1:
+                return len(args[0])
+            if fn == "bool" and len(args) == 1:
+                return bool(args[0])
+            if fn in ("list", "tuple", "sorted", "set", "frozenset", "reversed") and len(args) == 1:
+                return list(args[0])
+            if fn in ("chain", "from_iterable"):
+                return [x for a in (args[0] if fn == "from_iterable" else args) for x in a]
+        except TypeError:
+            return _UNK  # len(None), list(None): the code would raise there; not this function's question
+    return _UNK
+
+
+def _truth3(e: ast.AST, attrs: dict[str, Any]) -> bool | None:
+    """the truth value of the expression under the given values of the two lists (None: it depends on something else)"""
+    if isinstance(e, ast.BoolOp):
+        ts = [_truth3(x, attrs) for x in e.values]
+        if isinstance(e.op, ast.And):
+            return False if any(t is False for t in ts) else True if all(t is True for t in ts) else None
+        return True if any(t is True for t in ts) else False if all(t is False for t in ts) else None
+    if isinstance(e, ast.UnaryOp) and isinstance(e.op, ast.Not):
+        t = _truth3(e.operand, attrs)
+        return None if t is None else not t
+    v = _concrete(e, attrs)
+    return None if v is _UNK else bool(v)
+
+
+def _inlined(e: ast.expr, g: Any, reg: list[Any], depth: int = 2) -> ast.expr:
+    """e with the locals of g replaced by what they hold and the call of a function of the region that consists of one `return` replaced
+    by what it returns for these arguments (a predicate that was given a name)"""
+    e = _held(e, g.node, set())
+    if depth == 0:
+        return e
+
+    class Inline(ast.NodeTransformer):
+        def visit_Call(self, c: ast.Call) -> ast.AST:
+            self.generic_visit(c)
+            last = call_name(c).rsplit(".", 1)[-1]
+            for h in reg:
+                if h.name != last or h.qual == g.qual:
+                    continue
+                rets = [r for r in _own_nodes(h.node) if isinstance(r, ast.Return)]
+                if len(rets) != 1 or rets[0].value is None:
+                    continue
+                fn, call = h.node, c
+                if h.cls is not None and h.kind not in ("staticmethod", "classmethod") and isinstance(c.func, ast.Attribute):
+                    fn = h.node  # <receiver>.<method>(...): the receiver is the first parameter
+                    call = ast.Call(func=ast.Name(id=last, ctx=ast.Load()), args=[c.func.value, *c.args], keywords=c.keywords)
+                bound = _bind_args(fn, call)
+                if bound is not None:
+                    return _Subst(bound).visit(copy.deepcopy(_inlined(rets[0].value, h, reg, depth - 1)))  # type: ignore[arg-type]
+            return c
+
+    return Inline().visit(copy.deepcopy(e))
+
+
 def _parents_first(rep: Report, ctx: Any, cfgs: dict[str, CFG]) -> None:
     ix = ctx.py
     pm = ix.func("properties._process_models")
-    reg = region(ix, pm)
+    reg = _with_record_methods(ix, region(ix, pm))
     helpers = {g.name: g for g in reg if g is not pm}
     cfg = cfg_of(pm, cfgs)
     # roles: the work list is what the loop calling process_model iterates; the next round is what is assigned to it at the end of a
-    # pass; a recorded error is a (model, error) tuple appended to a list whose contents reach _process_model_errors
+    # pass, computed from a list the model is put into during the pass (that list itself, or the models of the records in it); a recorded
+    # error is something that holds the model and the outcome of process_model (a tuple, a record) appended to a list whose contents
+    # reach _process_model_errors
     ploops = [n for n in ast.walk(pm.node) if isinstance(n, ast.For) and any(call_name(c) == "process_model" for c in calls_in(n))]
     rep.require(ploops, "loop calling process_model")
     pl = ploops[0]
     model, work = norm(pl.target), norm(pl.iter)
-    nxt = {norm(a.value) for a in ast.walk(pm.node) if isinstance(a, ast.Assign) and norm(a.targets[0]) == work and isinstance(a.value, ast.Name)}
     rounds = [w for w in ast.walk(pm.node) if isinstance(w, ast.While) and any(x is pl for x in ast.walk(w))]
     rep.require(rounds, "the loop that repeats the pass over the models")
     reset_each_round = {t.id for w in rounds for a in ast.walk(w) if isinstance(a, (ast.Assign, ast.AnnAssign)) for t in
                         (a.targets if isinstance(a, ast.Assign) else [a.target]) if isinstance(t, ast.Name)}
-    requeues = [c for r, c in receivers(pl, "append", lambda a: a == model) if r in nxt]
-    records = [(r, c) for r, c in receivers(pl, "append", lambda a: a.startswith(f"({model},"))]
+    lc = Locals(pm.node)
+    outcomes = set(lc.bound_from(lambda v: v.startswith("process_model("), "assign"))
+    puts = [(r, c, _held(c.args[0], pm.node, outcomes | {model})) for r, c in receivers(pl, "append") if len(c.args) == 1]
+    puts = [(r, c, x) for r, c, x in puts if model in names_in(x)]  # what is put there holds the model
+
+    def resets(n: object, lst: str) -> bool:
+        if isinstance(n, (ast.Assign, ast.AnnAssign)) and n.value is not None:
+            tg = n.targets if isinstance(n, ast.Assign) else [n.target]
+            if any(norm(t) == lst for t in tg) and lst not in names_in(n.value):
+                return True  # bound to something that does not contain what it held
+            return any(isinstance(t, ast.Subscript) and norm(t.value) == lst and isinstance(t.slice, ast.Slice) and
+                       t.slice.lower is None and t.slice.upper is None for t in tg) and isinstance(n.value, (ast.List, ast.Tuple)) and not n.value.elts
+        if isinstance(n, ast.Expr) and isinstance(n.value, ast.Call) and isinstance(n.value.func, ast.Attribute):
+            return n.value.func.attr == "clear" and norm(n.value.func.value) == lst
+        if isinstance(n, ast.Delete):
+            return any(isinstance(t, ast.Subscript) and norm(t.value) == lst for t in n.targets)
+        return False
+
+    # the lists the next round is made of: assigned to the work list after the pass, while they still hold what the pass put there
+    nxt: set[str] = set()
+    for a in ast.walk(pm.node):
+        if isinstance(a, ast.Assign) and norm(a.targets[0]) == work and not any(x is a for x in ast.walk(pl)):
+            for r in {r for r, _, _ in puts} & names_in(a.value):
+                if a in cfg.reachable_from(pl, avoid=lambda n, r=r: resets(n, r)):
+                    nxt.add(r)
+    requeues = [c for r, c, _ in puts if r in nxt]
+    records = [(r, c) for r, c, x in puts if names_in(x) & outcomes]
     sink = [c for c in calls_in(pm.node) if call_name(c) == "_process_model_errors"]
     rep.require(sink, "call of _process_model_errors")
     feeds = _flows_into(pm.node, {x for c in sink for a in c.args for x in names_in(a)})
     recorded = {r for r, _ in records}
     # every model of a round is accounted for: processed (the schemas it produced are kept), queued for the next round, or reported
-    lc = Locals(pm.node)
-    outcomes = set(lc.bound_from(lambda v: v.startswith("process_model("), "assign"))
     kept = [a for a in ast.walk(pl) if isinstance(a, ast.Assign) and isinstance(a.value, ast.Name) and a.value.id in outcomes and norm(a.targets[0]) == "schemas"]
     req_st = [stmt_of(pm.node, c) for c in requeues]
     final_st = [stmt_of(pm.node, c) for r, c in records if r in feeds and r not in reset_each_round]
@@ -2179,7 +2376,7 @@ def _parents_first(rep: Report, ctx: Any, cfgs: dict[str, CFG]) -> None:
     rep.check(bool(requeues) and bool(recorded) and recorded <= feeds and every, "R15.4", "_process_models::requeue",
               "a model whose parent is not processed yet is not re-queued (or its error of the last round is not reported)", where(pm, pl),
               lhs={"requeue": [norm(c) for c in requeues], "recorded_in": sorted(recorded), "reported": sorted(feeds), "every_model_accounted_for": every},
-              rhs="<next round>.append(<model>) and (<model>, <error>) recorded in a list that reaches _process_model_errors, on every path")
+              rhs="<model> put into what the next round is made of and <model> with its error recorded in a list that reaches _process_model_errors, on every path")
 
     # an error recorded for a model that is also queued for the next round is provisional: the next round decides anew.  The list it is
     # recorded in starts every round empty (else a model that succeeds when it is retried is still reported - and removed), and is not
@@ -2193,24 +2390,11 @@ def _parents_first(rep: Report, ctx: Any, cfgs: dict[str, CFG]) -> None:
         for st in [stmt_of(pm.node, c)] for q in req_st)})
     stale, lost = [], []
     for lst in provisional:
-        def resets(n: object, lst: str = lst) -> bool:
-            if isinstance(n, (ast.Assign, ast.AnnAssign)) and n.value is not None:
-                tg = n.targets if isinstance(n, ast.Assign) else [n.target]
-                if any(norm(t) == lst for t in tg) and lst not in names_in(n.value):
-                    return True  # bound to something that does not contain what it held
-                return any(isinstance(t, ast.Subscript) and norm(t.value) == lst and isinstance(t.slice, ast.Slice) and
-                           t.slice.lower is None and t.slice.upper is None for t in tg) and isinstance(n.value, (ast.List, ast.Tuple)) and not n.value.elts
-            if isinstance(n, ast.Expr) and isinstance(n.value, ast.Call) and isinstance(n.value.func, ast.Attribute):
-                return n.value.func.attr == "clear" and norm(n.value.func.value) == lst
-            if isinstance(n, ast.Delete):
-                return any(isinstance(t, ast.Subscript) and norm(t.value) == lst for t in n.targets)
-            return False
-
         for e_ in round_ends:
-            if not resets(e_) and pl in cfg.reachable_from(e_) and not cfg.every_path_passes(e_, pl, resets):
+            if not resets(e_, lst) and pl in cfg.reachable_from(e_) and not cfg.every_path_passes(e_, pl, lambda n, lst=lst: resets(n, lst)):
                 stale.append(lst)
             after_last = cfg.reachable_from(e_, avoid=lambda n: n is pl)
-            if any(resets(n) and any(s_ in cfg.reachable_from(n, avoid=lambda m: m is pl) for s_ in sink_st) for n in after_last):
+            if any(resets(n, lst) and any(s_ in cfg.reachable_from(n, avoid=lambda m: m is pl) for s_ in sink_st) for n in after_last):
                 lost.append(lst)
     rep.check(not stale and not lost, "R15.4", "_process_models::retried-model-error-is-provisional",
               "the error of a model that is queued for another round is kept beyond that round (the list it is recorded in is not emptied on "
@@ -2252,22 +2436,41 @@ def _parents_first(rep: Report, ctx: Any, cfgs: dict[str, CFG]) -> None:
             rep.check(_sep_anchored(a, g.node), "R15.4", "_process_models::self-reference-test-anchored",
                       "self reference is detected by a bare name suffix: a child whose name is a suffix of its parent's is never retried",
                       where(g, n), lhs=norm(n)[:80], rhs="endswith(f\"/{name}\")")
-    # a parent that is not processed yet is an error of the child (which is what sends it into the next round)
+    # a parent that is not processed yet is an error of the child (which is what sends it into the next round) - and only such a parent:
+    # the decision is whatever test, read with what its locals hold, looks at the two property lists of the parent and has an outcome
+    # that ends in an error.  It is evaluated for the lists as they can be: None before the parent is processed, lists - empty ones
+    # too - afterwards.
     pp = ix.func("model_property._process_properties")
-    found, reported = False, True
-    for g in region(ix, pp):
+    preg = _with_record_methods(ix, region(ix, pp))
+    unprocessed = {a: None for a in _PARENT_LISTS}
+    processed = [dict(zip(_PARENT_LISTS, v)) for v in itertools.product([[], [object()]], repeat=2)]
+    found, reported, refused = False, False, []
+    at = where(pp, pp.node)
+    for g in _unique(preg):
         gcfg = cfg_of(g, cfgs)
-        for s in ast.walk(g.node):
-            if isinstance(s, ast.If) and any(isinstance(a, ast.Attribute) and a.attr in ("required_properties", "optional_properties") for a in ast.walk(s.test)):
-                found = True
-                # where control goes when the lists are not there yet: every isinstance(<...>_properties, list) is false
-                for v in _values_of_test(s.test, {norm(c): False for c in calls_in(s.test) if call_name(c) == "isinstance"}):
-                    entry, _ = _arm_entries(gcfg, s, v)
-                    is_err = lambda n: isinstance(n, ast.Return) and constructs_error(n.value)  # noqa: E731
-                    reported = reported and (is_err(entry) or EXIT not in gcfg.reachable_from(entry, avoid=is_err))
-    rep.require(found, "the test whether a referenced parent has been processed (required_properties / optional_properties are lists)")
-    rep.check(reported, "R15.4", "_process_properties::unprocessed-parent-error", "a not-yet-processed parent is not reported (so never retried)",
-              where(pp, pp.node))
+        for s in _own_nodes(g.node):
+            if not isinstance(s, ast.If):
+                continue
+            test = _inlined(s.test, g, preg)
+            if not any(isinstance(a, ast.Attribute) and a.attr in _PARENT_LISTS for a in ast.walk(test)):
+                continue
+            is_err = lambda n: isinstance(n, ast.Return) and constructs_error(n.value)  # noqa: E731
+            err_on = [v for v in (True, False) for entry in [_arm_entries(gcfg, s, v)[0]]
+                      if is_err(entry) or EXIT not in gcfg.reachable_from(entry, avoid=is_err)]
+            if len(err_on) != 1:
+                continue
+            found = True
+            at = where(g, s)
+            reported = reported or _truth3(test, unprocessed) is err_on[0]
+            refused += [f"{norm(test)[:80]} when the lists are {sorted((k, len(v)) for k, v in sc.items())}" for sc in processed
+                        if _truth3(test, sc) is err_on[0]]
+    rep.require(found, "the test whether a referenced parent has been processed (decides on required_properties / optional_properties, one outcome is an error)")
+    rep.check(reported, "R15.4", "_process_properties::unprocessed-parent-error", "a not-yet-processed parent is not reported (so never retried)", at)
+    rep.check(not refused, "R15.4", "_process_properties::processed-parent-accepted",
+              "a parent that has been processed is taken for one that has not (its property lists are there, but the test asks for more - "
+              "for something in them): a child of a parent without properties of its own is sent into the next round again and again, "
+              "and in the end reported and removed with everything composed from it", at, lhs=refused[:3],
+              rhs="`not processed yet` holds only while the lists are None")
 
 
 def _values_of_test(test: ast.expr, env: dict[str, bool], store: dict[str, ast.expr | None] | None = None,
